@@ -1,0 +1,34 @@
+//go:build verif
+
+package fsstore
+
+import "sync/atomic"
+
+// Verification hook points (only compiled with the "verif" build tag).
+//
+// The hook is called immediately BEFORE the filesystem operation named by point,
+// with the path(s) that operation is about to use. If it returns an error, the
+// operation is not performed and the error is returned to the caller as if the
+// operation had failed. The hook may also panic to simulate the process dying at
+// that point.
+
+type verifHookFn func(point string, paths ...string) error
+
+var verifHookPtr atomic.Pointer[verifHookFn]
+
+// SetVerifHook installs (or, with nil, removes) the process-wide hook.
+func SetVerifHook(fn func(point string, paths ...string) error) {
+	if fn == nil {
+		verifHookPtr.Store(nil)
+		return
+	}
+	f := verifHookFn(fn)
+	verifHookPtr.Store(&f)
+}
+
+func verifHook(point string, paths ...string) error {
+	if f := verifHookPtr.Load(); f != nil {
+		return (*f)(point, paths...)
+	}
+	return nil
+}
